@@ -874,9 +874,9 @@ type sqlCol struct {
 	NotNull bool   `json:"nn"`
 }
 type sqlTable struct {
-	Name string   `json:"name"`
-	Cols []sqlCol `json:"cols"`
-	PK   []string `json:"pk"`
+	Name string      `json:"name"`
+	Cols []sqlCol    `json:"cols"`
+	PK   []string    `json:"pk"`
 	FK   [][3]string `json:"fk"` // col, reftable, refcol
 }
 type sqlDoc struct {
